@@ -1303,18 +1303,18 @@ impl ApiEndpointVersions {
 
             (
                 ApiEndpointVersions::From(earliest),
-                ApiEndpointVersions::FromUntil(OrderedVersionPair {
+                r @ ApiEndpointVersions::FromUntil(OrderedVersionPair {
                     earliest: _,
                     until,
                 }),
-            ) => earliest < until,
+            ) => earliest < until || r.matches(Some(earliest)),
             (
-                ApiEndpointVersions::FromUntil(OrderedVersionPair {
+                r @ ApiEndpointVersions::FromUntil(OrderedVersionPair {
                     earliest: _,
                     until,
                 }),
                 ApiEndpointVersions::From(earliest),
-            ) => earliest < until,
+            ) => earliest < until || r.matches(Some(earliest)),
 
             (
                 u @ ApiEndpointVersions::Until(_),
